@@ -394,6 +394,14 @@ class AXITimeout(LiteXModule):
         rd_timer = WaitTimer(cycles)
         self.submodules += wr_timer, rd_timer
 
+        # ID of the last accepted request, returned with the error response.
+        wr_id = Signal.like(master.aw.id)
+        rd_id = Signal.like(master.ar.id)
+        self.sync += [
+            If(master.aw.valid & master.aw.ready, wr_id.eq(master.aw.id)),
+            If(master.ar.valid & master.ar.ready, rd_id.eq(master.ar.id)),
+        ]
+
         def channel_fsm(timer, wait_cond, error, response):
             fsm = FSM(reset_state="WAIT")
             fsm.act("WAIT",
@@ -417,6 +425,7 @@ class AXITimeout(LiteXModule):
                 master.w.ready.eq(master.w.valid),
                 master.b.valid.eq(~master.aw.valid & ~master.w.valid),
                 master.b.resp.eq(RESP_SLVERR),
+                master.b.id.eq(wr_id),
                 If(master.b.valid & master.b.ready,
                     NextState("WAIT")
                 )
@@ -431,6 +440,7 @@ class AXITimeout(LiteXModule):
                 master.r.valid.eq(~master.ar.valid),
                 master.r.last.eq(1),
                 master.r.resp.eq(RESP_SLVERR),
+                master.r.id.eq(rd_id),
                 master.r.data.eq(2**len(master.r.data) - 1),
                 If(master.r.valid & master.r.ready,
                     NextState("WAIT")
